@@ -14,6 +14,7 @@ import (
 )
 
 type Hash = u.Hash
+type Leaf = u.Leaf
 
 // InstCfg selects an implementation and its configuration.
 type InstCfg struct {
